@@ -14,7 +14,8 @@ import Bt.Algos.Blotter
   `target.data.index` is the index of the data the backtest was set up with, *including* the synthetic first row
   `Backtest` prepends (one calendar day before the first date): on the first real date (row 1) `timeline[index - 1]` is the
   stamp of that synthetic row.  The backtest's own tree is first run on row 1, so rows stamped at or before the synthetic
-  stamp are never executed there; a shadow copy is stepped on row 0 too (`start = Timestamp.min`).
+  stamp are never executed there; a shadow copy is only updated on row 0 (its algos do not run there either), so it
+  replays the same rows as the stand-alone backtest of its definition.
 
   The frame is a list of rows `(stamp, child index, quantity, price)` in the frame's own order (any order); stamps are
   integers (nanoseconds).  The children named by the rows are securities declared up front (`target[security]` is a plain
